@@ -984,20 +984,35 @@ Qed.
 
 (* ================================================================== region abstraction *)
 Definition same_region (cs : list Z) (x x' : Z) : Prop := forall c, In c cs -> (x ?= c) = (x' ?= c).
+Lemma compare_swap_same : forall x x' c, (x ?= c) = (x' ?= c) -> (c ?= x) = (c ?= x').
+Proof. intros x x' c H. rewrite (Z.compare_antisym x c), (Z.compare_antisym x' c), H. reflexivity. Qed.
 Lemma region_congr : forall cs x x' e, lit_atoms cs e = true -> same_region cs x x' ->
   sev [[VInt x]] e = sev [[VInt x']] e.
 Proof.
   intros cs x x' e. induction e; intros LA SR; cbn [lit_atoms] in LA; try discriminate LA.
   - reflexivity.
-  - (* comparison *)
-    destruct e1; try discriminate LA. destruct depth; try discriminate LA. destruct idx; try discriminate LA.
-    destruct e2; try discriminate LA. destruct v; try discriminate LA.
-    apply existsb_exists in LA. destruct LA as [c [Hin E]]. apply Z.eqb_eq in E. subst c.
-    cbn. unfold cmp3, vcompare, vcmp_nn. rewrite (SR z Hin). reflexivity.
+  - (* comparison, the literal on either side *)
+    destruct e1; try discriminate LA.
+    + destruct depth; try discriminate LA. destruct idx; try discriminate LA.
+      destruct e2; try discriminate LA. destruct v; try discriminate LA.
+      apply existsb_exists in LA. destruct LA as [c [Hin E]]. apply Z.eqb_eq in E. subst c.
+      cbn. unfold cmp3, vcompare, vcmp_nn. rewrite (SR z Hin). reflexivity.
+    + destruct v; try discriminate LA. destruct e2; try discriminate LA.
+      destruct depth; try discriminate LA. destruct idx; try discriminate LA.
+      apply existsb_exists in LA. destruct LA as [c [Hin E]]. apply Z.eqb_eq in E. subst c.
+      cbn. unfold cmp3, vcompare, vcmp_nn. rewrite (compare_swap_same x x' z (SR z Hin)). reflexivity.
   - apply andb_true_iff in LA. destruct LA as [L1 L2]. cbn [sev]. rewrite (IHe1 L1 SR), (IHe2 L2 SR). reflexivity.
   - apply andb_true_iff in LA. destruct LA as [L1 L2]. cbn [sev]. rewrite (IHe1 L1 SR), (IHe2 L2 SR). reflexivity.
   - cbn [sev]. rewrite (IHe LA SR). reflexivity.
   - destruct e; try discriminate LA. destruct depth; try discriminate LA. destruct idx; try discriminate LA. reflexivity.
+  - (* BETWEEN two literals *)
+    destruct e1; try discriminate LA. destruct depth; try discriminate LA. destruct idx; try discriminate LA.
+    destruct e2; try discriminate LA. destruct v; try discriminate LA.
+    destruct e3; try discriminate LA. destruct v; try discriminate LA.
+    apply andb_true_iff in LA. destruct LA as [L1 L2].
+    apply existsb_exists in L1. destruct L1 as [c1 [Hin1 E1]]. apply Z.eqb_eq in E1. subst c1.
+    apply existsb_exists in L2. destruct L2 as [c2 [Hin2 E2]]. apply Z.eqb_eq in E2. subst c2.
+    cbn. unfold cmp3, vcompare, vcmp_nn. rewrite (SR z Hin1), (SR z0 Hin2). reflexivity.
 Qed.
 
 Fixpoint max_below (cs : list Z) (x : Z) : option Z :=
